@@ -294,8 +294,26 @@ class C37(core.Prop):
     max_workers = 6
     technique = ("property-based testing (Hypothesis), differential: generated MPI programs run online with time-independent tracing, then "
                  "their trace replayed (smpi_replay_init/main with an overridden finalize action); per-rank end dates and final date compared")
-    rule = ""
-    assumptions = []
+    rule = ("A case = an SPMD MPI program of 2..8 ranks (steps: point-to-point phases of 1..6 messages in blocking/non-blocking mode completed by "
+            "wait / waitall / test+wait, possibly with a collective between the posting and the completion; MPI_Sendrecv shifts; every "
+            "collective that the replayer knows, on MPI_COMM_WORLD: barrier, bcast, reduce, allreduce, alltoall(v), gather(v), scatter(v), "
+            "allgather(v), reduce_scatter, scan, exscan; MPI_Comm_dup / MPI_Comm_split and point-to-point on those communicators), "
+            "ranks placed on the hosts of one of three example platforms, collective selector default/ompi/mpich/mvapich2, smpi/simulate-"
+            "computation:no. The program runs ONLINE in the mpi_interp driver (SMPI_app_instance_start) with the options that `smpirun "
+            "-trace-ti` passes (tracing:yes tracing/smpi:yes tracing/smpi/format:TI); every rank notes MPI_Wtime() just before "
+            "MPI_Finalize. The per-rank trace files (listed by the index file) are then REPLAYED in the smpi_replay_driver "
+            "(smpi_replay_init + own `finalize` action + smpi_replay_main, the documented override-the-replayer pattern) on the same "
+            "platform, hosts and configuration. Oracle: for every rank the date of its finalize action equals the online date, and the "
+            "final simulated dates are equal (relative 1e-9). A program that does not run online (deadlock, crash of a collective "
+            "algorithm: C29) is out of the domain (counted as invalid). Messages use distinct tags and distinct buffer regions; waitall "
+            "always covers every pending request of the rank (the trace format has no other form); collectives run on MPI_COMM_WORLD (the "
+            "trace does not name the communicator). Non-trivial: at least one non-blocking request completed by a later wait and at "
+            "least one collective. Distinct = canonical JSON of the case.")
+    assumptions = ["relative tolerance 1e-9 on dates (in practice the dates are bit-identical)",
+                   "smpi/wtime:0 in the online run: MPI_Wtime() itself costs 10 ns of simulated time by default, which is not part of the program",
+                   "network/model:SMPI on both sides, as smpirun does; smpi/privatization:no (one process, no dlopen: the recorded calls are the same)",
+                   "the replay entry points smpi_replay_init()/smpi_replay_main() are the ones of smpireplaymain; the crash found with them was "
+                   "reproduced once with the real `smpirun -replay`"]
 
     def strategy(self, tier):
         return cases(tier)
